@@ -392,7 +392,8 @@ class Scenario:
             i, f = done[-1]
             return env.aca(host=host, app=f.h.app, hbh=f.h.hbh, e2e=f.h.e2e)
         if name == "ans_unknown":
-            return env.aca(host=host, hbh=0x5555, e2e=0x6666)
+            s.unk = getattr(s, "unk", 0) + 1      # fresh identifiers every time: nobody ever waited for them
+            return env.aca(host=host, hbh=0x5555_0000 + s.unk, e2e=0x6666_0000 + s.unk)
         if name == "ans_nohost":
             return env.aca(host=host, hbh=0x5556, e2e=0x6667, with_origin_host=False)
         if name == "ans_norc":
